@@ -56,6 +56,7 @@ type Engine struct {
 	TimeoutMs   int
 	Prelude     string
 	FuncsEntered map[string]bool
+	SamplePath  func(decisions []int) bool // sample completed paths for native validation replays
 	SubmatchHook func(r *Run, re *regexp.Regexp, s *Term) (value, bool)
 }
 
@@ -930,6 +931,7 @@ func executePhis(fr *frame) []ssa.Instruction {
 // ---------------------------------------------------------------- running one path
 
 type PathResult struct {
+	Model     map[string]interface{} // a model of the path condition (sampled paths only)
 	Decisions []int
 	Outcome   string // ok | panic | exit | infeasible | unsupported | unwind | engine-bug
 	Detail    string
@@ -1005,6 +1007,11 @@ func (e *Engine) ExecPath(s *Solver, harness *ssa.Function, prefix []int, mapOrd
 	}()
 	r.ensureInit(harness.Pkg)
 	r.call(nil, token.NoPos, harness, nil)
+	if e.SamplePath != nil && e.SamplePath(r.taken) {
+		if sr, m := r.model(); sr == Sat {
+			res.Model = m
+		}
+	}
 	if h := r.Env["__exit_hook"]; h != nil {
 		_ = h
 	}
